@@ -77,6 +77,9 @@ STEREO = [
     '{[#A][#B]}.{#A=[$]c1ccccc1,#B=[$]/C=C/c1ccccc1}',
     '{[#A][#B][#C]}.{#A=CC[$],#B=[$]/C=C(/C)[$],#C=[$]CO}',
     '{[#A][#B]}.{#A=OC(=O)C/C=C\\C[$],#B=[$]C(=O)O}',
+    # marked double bonds INSIDE a ring (removing a substituent bond does not split the molecule)
+    '{[#A]}.{#A=C1CCC/C=C\\CC1}',
+    '{[#A]}.{#A=C1CCCC/C=C/CCCCC1}',
 ]
 WEIGHTS = ['0.5', '2', '3', '0.25', '1.5', '10', '0.1']
 NAMES = ['A', 'B', 'C', 'D', 'E', 'F', 'G', 'H', 'I', 'J']
